@@ -61,6 +61,9 @@ CLAIMED['C17'] = ("contract monitors with exact arithmetic: subsequence/on-segme
 CLAIMED['C20'] = ("runtime monitoring by reflection: every exported method of the ten value types (enumerated at run time) and a table of free functions are invoked over an emptiness pool under recover(); neutral-answer monitors; digest comparison zero Geometry vs empty collection; metamorphic transparency monitor for inserted empty members (predicates, matrix, measures bitwise; set-operation point sets through the exact oracle)",
   "Exploration by runtime monitoring: ~340 distinct receiver.method pairs x pool arguments (about 60k method calls), 24 free functions over all ordered pairs of a 49-member pool (about 60k calls), neutral answers for every pool empty against non-empty partners, and thousands of non-empty geometries per run with an empty member of every admissible type inserted at every position.",
   "documented panics are an explicit table (MustAs* on another type, index accessors only with in-range indices); Dimension() itself is not compared under insertion", "DESIGN.md §3 C20")
+CLAIMED['C10'] = ("Go race detector (-race build, reports counted and deduplicated from GORACE log files) over 2/4/8/16 goroutines sharing operands without synchronisation; plus purity/determinism monitors: operand snapshots around every call, 24-64 in-process repetitions per call (fresh map iteration orders), digest tables recomputed in separate worker processes (different GOMAXPROCS/sharding) and compared by the driver",
+  "Exploration by runtime monitoring: an operation table of the public read API (40 geometry operations + R-tree searches) runs over a pool of shared valid operands (incl. shapes whose result rings/lines tie on their first vertex) - about 1.9k calls x 25-65 repetitions, every digest recomputed in a second set of processes, and about 90k concurrent calls under the race detector with the measured number of call pairs that overlapped on the same operand reported in the evidence. No race report and identical digests on everything observed.",
+  "races are only visible on paths the table drives; repetition samples map orders, it does not enumerate them", "DESIGN.md §3 C10")
 REASONS = {}
 hooks_commits = subprocess.run(['git','-C','/repo','log','--format=%h %s'],capture_output=True,text=True).stdout.splitlines()
 hook_commits = [l.split()[0] for l in hooks_commits if l.split(' ',1)[1].startswith('verif hook')]
